@@ -744,7 +744,7 @@ func compare(where string, m *readerModel, got []gotMetric, limit int, bad func(
 			for _, p := range pts {
 				tot += p.val
 			}
-			if tot != scopeSum {
+			if !feq(tot, scopeSum) {
 				bad("conservation", "%s: reported points add up to %v, the measurements in scope to %v", desc, tot, scopeSum)
 			}
 		case s.agg.kind == aHist || s.agg.kind == aExpo:
@@ -757,7 +757,7 @@ func compare(where string, m *readerModel, got []gotMetric, limit int, bad func(
 			if cnt != scopeCount {
 				bad("conservation", "%s: reported counts add up to %d, %d measurements in scope", desc, cnt, scopeCount)
 			}
-			if !s.noSum() && tot != scopeSum {
+			if !s.noSum() && !feq(tot, scopeSum) {
 				bad("conservation", "%s: reported sums add up to %v, the measurements in scope to %v", desc, tot, scopeSum)
 			}
 		}
@@ -783,7 +783,7 @@ func compare(where string, m *readerModel, got []gotMetric, limit int, bad func(
 			e, g := exp[k], gotBy[k]
 			switch s.agg.kind {
 			case aSum, aLast:
-				if g.val != e.val {
+				if !feq(g.val, e.val) {
 					bad("point_value", "%s: set %s reports %v, rule gives %v", desc, k, g.val, e.val)
 				}
 			default:
